@@ -59,6 +59,24 @@ def runStream (w : World) (evs : List Ev) : String :=
   let (chunks, ended) := go w0 0 ended0 [s!"e0:[{",".intercalate (out0.map enc)}]"] evs
   s!"shell={enc shell} | {" | ".intercalate chunks} | end@{match ended with | some k => toString k | none => "-"}"
 
+mutual
+/-- tasks and resources of a view in order of first occurrence (pre-order) -/
+def tasksOf : AV → List Nat × List Nat
+  | .el _ cs => tasksOfList cs
+  | .susp cs => tasksOfList cs
+  | .dynr cs => tasksOfList cs
+  | .acomp t cs => let (a, b) := tasksOfList cs; (t :: a, b)
+  | .res r => ([], [r])
+  | .text _ => ([], [])
+def tasksOfList : AVs → List Nat × List Nat
+  | .nil => ([], [])
+  | .cons v rest => let (a, b) := tasksOf v; let (c, d) := tasksOfList rest; (a ++ c, b ++ d)
+end
+
+def allEvents (vs : AVs) : List Ev :=
+  let (ts, rs) := tasksOfList vs
+  ts.eraseDups.map .c ++ rs.eraseDups.map .r
+
 /-- `<mode> (L av…) <ev,ev,…>` -/
 def handle (line : String) : String :=
   match line.splitOn " " with
@@ -72,6 +90,9 @@ def handle (line : String) : String :=
         | "sync" => let w := World.start .sync vs; s!"html={enc (renderList w.st .final w.tree)}"
         | "block" => runBlock (World.start .block vs) evs
         | "stream" => runStream (World.start .stream vs) evs
+        -- a render after a cancelled one is a fresh render: every task (in order of first occurrence in
+        -- the view), then every resource, completes
+        | "blockdrop" => runBlock (World.start .block vs) (allEvents vs)
         | _ => "bad-op"
       | _, _ => "bad-op"
     | _, _ => "bad-op"
